@@ -27,7 +27,7 @@ META = {
                     "kernel's Gram table, by fresh symbolic values", "stable_pinverse (QR) replaced by its contract in the fantasy op"],
     "exhaustive": True,
 }
-TIMEOUT_S = {"quick": 500, "thorough": 3000}
+TIMEOUT_S = {"quick": 900, "thorough": 3000}
 
 OPS = ["P0", "P1", "P2", "T", "E", "O", "Dy", "Dx", "Dxy", "L", "F", "R", "B"]
 NALL = 5  # labels 0..2 may be training points, 3..4 are the test points
@@ -415,7 +415,7 @@ def scenarios(tier, seed):
     L = 2 if tier == "quick" else 3
     for l in range(0, L + 1):
         for ops in itertools.product(OPS, repeat=l):
-            out.append({"sid": "history:" + ("-".join(ops) or "empty"), "fn": "history", "params": {"ops": list(ops)}, "timeout_s": 240})
+            out.append({"sid": "history:" + ("-".join(ops) or "empty"), "fn": "history", "params": {"ops": list(ops)}, "timeout_s": 600})
     for l in range(1, L + 1):
         for ops in itertools.product(SGPR_OPS, repeat=l):
             if "P" not in ops and l > 1:
@@ -430,7 +430,7 @@ def scenarios(tier, seed):
                 if not any(o in ("T", "O", "L") for o in ops[last_p + 1:]):
                     continue  # the final prediction would legitimately reuse the (still valid) kernel caches of the last
                     # prediction; the warm-cache route reaches equal terms that are not decided in time (not claimed)
-            out.append({"sid": "sgpr:" + "-".join(ops), "fn": "history_sgpr", "params": {"ops": list(ops)}, "timeout_s": 300})
+            out.append({"sid": "sgpr:" + "-".join(ops), "fn": "history_sgpr", "params": {"ops": list(ops)}, "timeout_s": 900})
     fant = [(["G"], {"fpv": True}), (["G", "B"], {"fpv": True}), (["G", "P1", "B"], {"fpv": True}), (["G", "G"], {}), (["G", "G"], {"fpv": True}),
             (["G", "T", "E"], {"fpv": True}), (["G", "Dy"], {"fpv": True})]
     if tier != "quick":
@@ -442,5 +442,5 @@ def scenarios(tier, seed):
     for strat in ("variational", "unwhitened"):
         for l in range(0, L + 1):
             for ops in itertools.product(VAR_OPS, repeat=l):
-                out.append({"sid": "var:%s:" % strat + ("-".join(ops) or "empty"), "fn": "history_var", "params": {"strat": strat, "ops": list(ops)}, "timeout_s": 300})
+                out.append({"sid": "var:%s:" % strat + ("-".join(ops) or "empty"), "fn": "history_var", "params": {"strat": strat, "ops": list(ops)}, "timeout_s": 600})
     return out
